@@ -73,6 +73,8 @@ type config struct {
 	CapSet     bool   `json:"capacity_set"`
 	CapNodes   uint64 `json:"capacity_nodes"`
 	CapValues  uint64 `json:"capacity_value_bytes"`
+	// WorkingSetNodes is 2D+4 for this history; class "tiny" iff 0 < CapNodes < WorkingSetNodes.
+	WorkingSetNodes uint64 `json:"working_set_nodes"`
 	Mechanism  string `json:"overlay_mechanism"` // raw | ctx
 	StartVer   uint64 `json:"start_version"`
 	Finalize   bool   `json:"finalize_every_version"`
@@ -122,7 +124,7 @@ var (
 
 func main() {
 	run = evid.Start("C03", "exploration")
-	run.Rule = "history i from PRNG(seed,i): configuration (backend nop/badger/pathbadger in-memory; write log on / WithoutWriteLog; cache default, unlimited, fit classes sized from the key universe, tiny (1,1),(2,16); overlays through mkvs.NewOverlay or api.Context.NewTransaction) and a list of " +
+	run.Rule = "history i from PRNG(seed,i): configuration (backend nop/badger/pathbadger in-memory; write log on / WithoutWriteLog; cache default, unlimited, fit classes sized from the key universe, tiny = node capacity below 2D+4: (1,1),(2,16); (0,1); overlays through mkvs.NewOverlay or api.Context.NewTransaction) and a list of " +
 		"100 operations over a universe of 6..40 adversarial keys (alphabet {00,01,7f,80,ff,a,b}, lengths 0..6 incl. the empty key, prefix keys) plus probe keys: Insert, Remove, RemoveExisting, Get (top and lower layers), iterator Seek/Rewind/Next, overlay push (depth<=3)/commit/discard/copy, Tree.Commit at the next version, close + NewWithRoot. " +
 		"Every returned value is compared with the reference ordered map; after a mutation a full iteration from a random seek key is compared (quick: 1/4 of the mutations). " +
 		"non-trivial = history with an overlay commit at depth >= 2, a close/reopen and at least one node re-fetched after eviction (counted by a GetNode-counting NodeDB wrapper)."
@@ -130,12 +132,15 @@ func main() {
 	run.Assume("values are non-nil, keys are non-nil byte slices (the empty key is []byte{}); iterators are closed before the next mutation; overlays are used strictly as a stack (only the top layer is mutated)")
 	run.Assume("nop node database only with the default/unlimited cache and never reopened; close+NewWithRoot only with no overlay open")
 
+	// The heap is dominated by short-lived 64 MiB badger arenas; collect eagerly.
+	debug.SetGCPercent(20)
+
 	if run.ReplayFile != "" {
 		replay(run.ReplayFile)
 		return
 	}
 
-	n := run.Pick(2000, 100000)
+	n := run.Pick(2000, 60000)
 	deadline := time.Now().Add(time.Duration(run.Pick(20, 90)) * time.Minute)
 	var skipped atomic.Int64
 	evid.Parallel(n, 0, func(i int) {
@@ -148,7 +153,7 @@ func main() {
 	if s := skipped.Load(); s > 0 {
 		run.Inconclusive("watchdog: %d of %d histories not executed before the deadline", s, n)
 	}
-	run.Finish(run.Pick(30, 1000))
+	run.Finish(run.Pick(30, 600))
 }
 
 // ---------------------------------------------------------------------------
@@ -188,6 +193,7 @@ func genConfig(rng *rand.Rand) config {
 		{name: "fit2", class: "fit2", set: true},
 		{name: "n1v1", class: "tiny", set: true, nodes: 1, vals: 1},
 		{name: "n2v16", class: "tiny", set: true, nodes: 2, vals: 16},
+		{name: "n0v1", class: "fitv", set: true, nodes: 0, vals: 1},
 	}
 	ch := caps[rng.IntN(len(caps))]
 	if c.Backend == lab.BackendNop {
@@ -198,9 +204,13 @@ func genConfig(rng *rand.Rand) config {
 }
 
 // sizeFit fills in the numbers of the fit classes: nodes = 2D+4 (4D+8), values = 4 (8) x largest leaf
-// where D is the longest path of the trie over the universe of insertable keys.
+// where D is the longest path (internal nodes) of the trie over the universe of insertable keys,
+// and decides the class "tiny": a configured node capacity N is below the working set of one
+// operation iff 0 < N < 2D+4 (an operation visits at most D path nodes and Remove dereferences
+// both children of each of them). This is the only way a failure gets a
+// c03/cache-below-working-set/... signature.
 func sizeFit(c *config, universe [][]byte, maxValue int) {
-	if !strings.HasPrefix(c.CapClass, "fit") {
+	if !c.CapSet {
 		return
 	}
 	u := map[string]struct{}{}
@@ -212,16 +222,23 @@ func sizeFit(c *config, universe [][]byte, maxValue int) {
 		}
 	}
 	d := uint64(lab.UniverseDepth(u))
+	ws := 2*d + 4
+	c.WorkingSetNodes = ws
 	maxLeaf := node.LeafNodeSize + uint64(maxKey+maxValue)
 	switch c.Capacity {
 	case "fit":
-		c.CapNodes, c.CapValues = 2*d+4, 4*maxLeaf
+		c.CapNodes, c.CapValues = ws, 4*maxLeaf
 	case "fit2":
-		c.CapNodes, c.CapValues = 4*d+8, 8*maxLeaf
+		c.CapNodes, c.CapValues = 2*ws, 8*maxLeaf
 	case "fit-nodes-only":
-		c.CapNodes, c.CapValues = 2*d+4, 0
+		c.CapNodes, c.CapValues = ws, 0
 	case "fit-values-only":
 		c.CapNodes, c.CapValues = 0, 4*maxLeaf
+	}
+	if c.CapNodes != 0 && c.CapNodes < ws {
+		c.CapClass = "tiny"
+	} else if c.CapClass == "tiny" {
+		c.CapClass = "fit"
 	}
 }
 
